@@ -62,6 +62,9 @@ class BalancedMoveRule(BaseRule):
         if isinstance(node.parent, MultiplyExpression) and isinstance(
             node, ConstantExpression
         ):
+            # Dividing both sides by zero is not a balanced move
+            if node.value == 0:
+                return None
             # NOTE: Don't allow divisions or multiplications if there are additions
             #       remaining on the same side of the equation
             if self.has_add_siblings(node):
@@ -70,6 +73,14 @@ class BalancedMoveRule(BaseRule):
             return _TYPE_CONST_OF_MULTIPLY
 
         if isinstance(node.parent, AddExpression):
+            # Only an addend of the whole side can move across: every ancestor between
+            # the node and the "=" has to be an addition (not a product, quotient, power,
+            # negation or subtraction).
+            top = node.parent
+            while isinstance(top.parent, AddExpression):
+                top = top.parent
+            if not isinstance(top.parent, EqualExpression):
+                return None
             if isinstance(node, ConstantExpression) or get_term_ex(node) is not None:
                 return _TYPE_ADDITION
 
